@@ -1,11 +1,14 @@
 /-
 package.json as a sequence of spans (C13, "byte for byte").  A file is a list of segments: `raw` bytes the
 writer never addresses (punctuation, white space, keys, every other member of the document) and `val` spans —
-the value string of one entry of one of the three dependency sections, in file order.  `Write` reads the
-sections out of the spans, runs the model of `packagejson.Write` on them, and puts each resulting value
-back into ITS span: that is the contract of `sjson.SetBytes` on a literal key (it rewrites the value span of
-the addressed member and nothing else), which stays trusted and is compared byte-wise by the harness on
-every case.
+the value string of one entry of one of the three dependency sections, in file order, together with the BYTES
+it is written with in the file (quotes and escapes as found: `"^1.0.0"`, `"^1.0.0"`, …).  `Write` reads
+the sections out of the spans, runs the model of `packagejson.Write` on them, and puts each resulting value
+back into ITS span: a span whose value changed gets the writer's rendering `quote v'`, every other span keeps its
+bytes.  That is the contract of `sjson.SetBytes` on a literal key (it rewrites the value span of the addressed
+member and nothing else); locating the spans in the byte string is gjson/sjson's scanner, which stays trusted
+and is compared byte-wise by the harness on every case.  (One divergence is possible and not generated: an
+update whose new value EQUALS the old one makes sjson re-render that span, the model keeps its bytes.)
 -/
 import Scalibr.Model.NpmWriter
 namespace Scalibr.Npm
@@ -15,7 +18,7 @@ deriving Repr, DecidableEq
 
 inductive Seg
   | raw (bytes : Str)
-  | val (sec : Section) (key : Str) (v : Str)
+  | val (sec : Section) (key : Str) (v : Str) (bytes : Str)
 deriving Repr, DecidableEq
 
 abbrev File := List Seg
@@ -23,31 +26,35 @@ abbrev File := List Seg
 def secOf (s : Section) : File → Sec
   | [] => []
   | .raw _ :: f => secOf s f
-  | .val s' k v :: f => if s' = s then (k, v) :: secOf s f else secOf s f
+  | .val s' k v _ :: f => if s' = s then (k, v) :: secOf s f else secOf s f
 
 def docOf (f : File) : Doc := ⟨secOf .dev f, secOf .opt f, secOf .prod f⟩
 
+/-- one span after the write: new bytes only when the value changed -/
+def setSpan (quote : Str → Str) (s : Section) (k v b v' : Str) : Seg :=
+  if v' = v then .val s k v b else .val s k v' (quote v')
+
 /-- write the values of the three sections back into their spans, in order -/
-def putBack : File → Sec → Sec → Sec → File
+def putBack (quote : Str → Str) : File → Sec → Sec → Sec → File
   | [], _, _, _ => []
-  | .raw b :: f, d, o, p => .raw b :: putBack f d o p
-  | .val .dev k v :: f, d, o, p =>
-    (match d with | e :: d' => .val .dev k e.2 :: putBack f d' o p | [] => .val .dev k v :: putBack f [] o p)
-  | .val .opt k v :: f, d, o, p =>
-    (match o with | e :: o' => .val .opt k e.2 :: putBack f d o' p | [] => .val .opt k v :: putBack f d [] p)
-  | .val .prod k v :: f, d, o, p =>
-    (match p with | e :: p' => .val .prod k e.2 :: putBack f d o p' | [] => .val .prod k v :: putBack f d o [])
+  | .raw b :: f, d, o, p => .raw b :: putBack quote f d o p
+  | .val .dev k v b :: f, d, o, p =>
+    (match d with | e :: d' => setSpan quote .dev k v b e.2 :: putBack quote f d' o p | [] => .val .dev k v b :: putBack quote f [] o p)
+  | .val .opt k v b :: f, d, o, p =>
+    (match o with | e :: o' => setSpan quote .opt k v b e.2 :: putBack quote f d o' p | [] => .val .opt k v b :: putBack quote f d [] p)
+  | .val .prod k v b :: f, d, o, p =>
+    (match p with | e :: p' => setSpan quote .prod k v b e.2 :: putBack quote f d o p' | [] => .val .prod k v b :: putBack quote f d o [])
 
 /-- `readWriter.Write` on the file: `none` = an error is returned, nothing is written -/
-def writeFile (f : File) (us : List Up) : Option File :=
+def writeFile (quote : Str → Str) (f : File) (us : List Up) : Option File :=
   match write (docOf f) us with
-  | .ok d' => some (putBack f d'.dev d'.opt d'.prod)
+  | .ok d' => some (putBack quote f d'.dev d'.opt d'.prod)
   | .err => none
 
-/-- the bytes of a file; `quote` renders a value as a JSON string -/
-def bytes (quote : Str → Str) : File → Str
+/-- the bytes of a file -/
+def bytes : File → Str
   | [] => []
-  | .raw b :: f => b ++ bytes quote f
-  | .val _ _ v :: f => quote v ++ bytes quote f
+  | .raw b :: f => b ++ bytes f
+  | .val _ _ _ b :: f => b ++ bytes f
 
 end Scalibr.Npm
